@@ -259,7 +259,9 @@ def check_solution(case, dump, val, objective, V, label):
         V.append(Violation("objective_vs_semantics", f"[{label}] model objective {objective} but the decisions {dec} are worth {util}; case={case}", "strl.objective_vs_semantics" + tag))
         return False
     # read-back through populateResults
-    values = {v["id"]: val(v["id"]) for v in dump["vars"]}
+    # GurobiSolver.cpp rounds integer and indicator variables when it stores the solution; pool solutions are only
+    # integral up to the solver's tolerance
+    values = {v["id"]: (float(round(val(v["id"]))) if v["type"] in (1, 2) else val(v["id"])) for v in dump["vars"]}
     out = strl.run_driver(case, values)
     if "error" in out or "result_error" in out:
         V.append(Violation("populate_results_fails", f"[{label}] {out.get('error') or out.get('result_error')}; case={case}", "strl.populate_results_fails" + tag))
@@ -449,6 +451,8 @@ def unsatisfied_start_bound(case, i):
             elif cn["start"] >= case["now"]:
                 starts.append(cn["start"])
         return min(starts) if starts else None
+    if k == "MALLEABLE":
+        return 0  # its start variable is the sum of slot * phase-shift indicator: 0 while unsatisfied
     if k == "WINDOWED":
         starts = strl.windowed_starts(case, n)
         return min(starts) if starts else None
